@@ -196,7 +196,8 @@ def pathC : String → Option Value
       an address (`addr "MAP_FAILED"` on failure, else the address of the new mapping);
     * `std::ptr::null_mut()`: the null pointer (only ever passed to `mmap`);
     * `MaybeUninit::<T>::uninit()`: a buffer without content;
-    * `FdGuard(fd)`: the constructor of the tuple struct, i.e. the tuple of its fields (`fdguard.0`). -/
+    * `FdGuard(fd)`: the constructor of the tuple struct `struct FdGuard(i32)`: the struct value with the field `0`
+      (so that `fdguard.0` reads it and a method `fdguard.m()` is `FdGuard::m`). -/
 def callC (w : Inputs) : String → List Value → St → Option Res
   | "libc::open", [p, flags], st =>
     match asInt .i32 (w.inp st.pos) with
@@ -214,7 +215,7 @@ def callC (w : Inputs) : String → List Value → St → Option Res
     | _ => none
   | "ptr::null_mut", [], st => some (.val (.ext "null" []) st)
   | "MaybeUninit::uninit", [], st => some (.val (.ext "MaybeUninit" []) st)
-  | "FdGuard", [fd], st => some (.val (.tuple [fd]) st)
+  | "FdGuard", [fd], st => some (.val (.struct "FdGuard" [("0", fd)]) st)
   | _, _, _ => none
 
 /-- * `CStr::as_ptr(&self)`: the pointer to the path string (only ever passed to `open`);
@@ -233,6 +234,12 @@ def methodC (w : Inputs) : Value → String → List Value → St → Option Res
     | .struct "ShmHeader" fs => some (.val (.struct "ShmHeader" fs) { st with pos := st.pos + 1 })
     | _ => none
   | .enumv "addr:segment" [], "cast", [], st => some (.val (addr "segment") st)
+  -- `<*const ShmHeader>::add(self, n)`: `n` ELEMENTS, i.e. `n * size_of::<ShmHeader>()` bytes past the segment
+  | .ext "ptr:ShmHeader" [], "add", [.int _ n], st =>
+    match w.sizes.lookup "ShmHeader" with
+    | some k => if 0 ≤ n then some (.val (addrPlus (.int .usize (n * (k : Int)))) st) else none
+    | none => none
+  | .ext "ptr:ShmHeader" [], "cast", [], st => some (.val (.ext "ptr:ShmHeader" []) st)
   | .enumv "addr:segment" [], "add", [n], st => some (.val (addrPlus n) st)
   -- `(segment + n).cast::<ClockErrorBound>()`: the pointer to the record of the mapped segment PROVIDED `n` is
   -- `size_of::<ShmHeader>()` (the record follows the header; the size comes from the table of the statement)
@@ -248,6 +255,8 @@ def methodC (w : Inputs) : Value → String → List Value → St → Option Res
 def fieldOfC : Value → String → Option Value
   | .enumv "addr:segment" [], "version" => some (ptrA16 "version")
   | .enumv "addr:segment" [], "generation" => some (ptrA16 "generation")
+  | .ext "ptr:ShmHeader" [], "version" => some (ptrA16 "version")
+  | .ext "ptr:ShmHeader" [], "generation" => some (ptrA16 "generation")
   | _, _ => none
 
 /-- `*p` with `p` the pointer to the record, as the operand of `ptr::addr_of!`: the place of the record, which
@@ -255,6 +264,9 @@ def fieldOfC : Value → String → Option Value
     READ through `*`: only `read_volatile` / `write` (part A) access it. -/
 def derefC (_ : Inputs) : Value → St → Option Res
   | .ext "ptr:ClockErrorBound" [.str "ceb"], st => some (.val ptrCeb st)
+  -- `*header` with `header` the typed pointer to the mapped header, as the base of a field place
+  -- (`(*header).version`): the header itself; its fields are the cells (`fieldOfC`)
+  | .ext "ptr:ShmHeader" [], st => some (.val (.ext "ptr:ShmHeader" []) st)
   | _, _ => none
 
 /-- * `syserror!(origin)` (lib.rs): `Err(ShmError::SyscallError(errno::errno(), origin))`; `errno()` is
@@ -357,7 +369,23 @@ def methodD (w : Inputs) : Value → String → List Value → St → Option Res
   | .ext "OpenOptions" [], "write", [.bool _], st => some (.val (.ext "OpenOptions" []) st)
   | .ext "OpenOptions" [], "open", [p], st => fsCall w "open_write" [p] st
   | .ext "Metadata" [.int .u64 n], "len", [], st => some (.val (.int .u64 n) st)
+  -- std `str::is_empty`
+  | .str s, "is_empty", [], st => some (.val (.bool (decide (s = ""))) st)
   | _, _, _, _ => none
+
+/-- `let header: *const ShmHeader = <address of the segment>` (or `*mut`): the pointer to the mapped header, TYPED —
+    `header.add(n)` then counts in `ShmHeader`s (`methodC`), `(*header).version` is the version cell (`fieldOfC`).
+    (A `*const u8` / `*mut c_void` … stays the plain address: `add` counts bytes.) -/
+def letPtrD : String → Value → Option Value
+  | "*const ShmHeader", .enumv "addr:segment" [] => some (.ext "ptr:ShmHeader" [])
+  | "*mut ShmHeader", .enumv "addr:segment" [] => some (.ext "ptr:ShmHeader" [])
+  | _, _ => none
+
+/-- `&mut file` on an open `File`: a `File` value is a HANDLE (its state is not in the value, every operation on
+    it is an event), so the mutable borrow of the handle is the handle (`write_header(&mut file, size)`) -/
+def refMutD (_ : Inputs) : Value → St → Option Res
+  | .ext "File" [], st => some (.val (.ext "File" []) st)
+  | _, _ => none
 
 /-! ## the dictionary -/
 
@@ -399,6 +427,6 @@ def derefAll (w : Inputs) (v : Value) (st : St) : Option Res :=
     functions of this group (every other literal meets a typed operand and takes its type). -/
 def ext : Ext :=
   { Ext.none with path := pathAll, deref := derefAll, method := method, call := call, macroCall := macroC,
-                  fieldOf := fieldOfC, litFallback := some .i32 }
+                  fieldOf := fieldOfC, litFallback := some .i32, refMut := refMutD, letPtr := letPtrD }
 
 end ClockBound.Rs.DictShm
